@@ -34,4 +34,127 @@ def scalarOK : Bool → Bool → List Entry → Bool
   | hb, he, .slice full _ :: r => full && scalarOK hb he r
   | _, _, _ :: _ => false
 
+/-! ### objects with at least one axis: the per-element specification `sel`
+
+Every entry is read against the axes that remain ("progressively"): an integer fixes a coordinate,
+a slice / single boolean / `None` / the Ellipsis produce axes, an array entry reads one coordinate
+(per consumed axis) for each element of the broadcast array shape.  The array axes stand where the
+first array entry stood. -/
+
+/-- a resolved index entry of the specification -/
+inductive SAtom where
+  /-- one result axis; element `j` reads source coordinate `l[j]`; `flag`: the entry is a masked
+      Boolean, every result element is masked -/
+  | axis (l : List Nat) (flag : Bool)
+  /-- `None`: one result axis of length 1 -/
+  | new
+  /-- an integer on an axis of length `n`: reads coordinate `k`; `none` = masked or out of range -/
+  | fix (n : Nat) (k : Option Nat)
+  /-- an array entry of shape `sh`: at array coordinate `i` it reads the source coordinates `f i`
+      (one per consumed axis) and is masked / out of range iff `flag i` -/
+  | arr (sh : Shape) (f : Index → List Nat) (flag : Index → Bool)
+
+/-- a single-axis entry on an axis of length `n` -/
+def specEntry (n : Nat) : Entry → Option SAtom
+  | .slice _ l => if l.all (· < n) then some (.axis l false) else none
+  | .bool v m =>
+    some (if m then .axis (List.range (min 1 n)) true
+          else if v then .axis (List.range n) false else .axis [] false)
+  | .int k m => some (.fix n (if m then none else normIdx n k))
+  | .iarr v m =>
+    some (.arr v.shape (fun i => [(normIdx n (v.get i)).getD 0])
+                       (fun i => m.bit i || (normIdx n (v.get i)).isNone))
+  | _ => none
+
+/-- the positions a Boolean array selects: True or masked, in row-major order -/
+def boolSel (v : Arr Bool) (m : Mask) : List Index :=
+  (indices v.shape).filter fun i => v.get i || m.bit i
+
+/-- resolve the entries against the remaining shape; `w` = number of axes the Ellipsis stands for -/
+def specAtoms (w : Nat) : Shape → List Entry → Option (List SAtom)
+  | [], [] => some []
+  | _ :: _, [] => none
+  | sh, .none :: r => (specAtoms w sh r).map (SAtom.new :: ·)
+  | sh, .ell :: r =>
+    (specAtoms w (sh.drop w) r).map (((sh.take w).map fun n => SAtom.axis (List.range n) false) ++ ·)
+  | sh, .barr v m :: r =>
+    if sh.take v.shape.length = v.shape ∧ sh ≠ [] then
+      (specAtoms w (sh.drop v.shape.length) r).map
+        (SAtom.arr [(boolSel v m).length] (fun i => (boolSel v m).getD (i.headD 0) [])
+                   (fun i => m.bit ((boolSel v m).getD (i.headD 0) [])) :: ·)
+    else none
+  | n :: sh, e :: r => (specEntry n e).bind fun a => (specAtoms w sh r).map (a :: ·)
+  | [], _ :: _ => none
+
+namespace SAtom
+/-- lengths of the result axes produced by the non-array entries -/
+def lens : List SAtom → Shape
+  | [] => []
+  | axis l _ :: r => l.length :: lens r
+  | new :: r => 1 :: lens r
+  | _ :: r => lens r
+
+def arrShapes : List SAtom → List Shape
+  | [] => []
+  | arr sh _ _ :: r => sh :: arrShapes r
+  | _ :: r => arrShapes r
+
+/-- result axes produced ahead of the first array entry -/
+def axesBefore : List SAtom → Nat
+  | [] => 0
+  | axis _ _ :: r => 1 + axesBefore r
+  | new :: r => 1 + axesBefore r
+  | fix _ _ :: r => axesBefore r
+  | arr _ _ _ :: _ => 0
+
+/-- source coordinate for plain coordinate `po` and array coordinate `ac` -/
+def walk : List SAtom → Index → Index → Index
+  | [], _, _ => []
+  | axis l _ :: r, po, ac => l.getD (po.headD 0) 0 :: walk r po.tail ac
+  | new :: r, po, ac => walk r po.tail ac
+  | fix _ k :: r, po, ac => k.getD 0 :: walk r po ac
+  | arr sh f _ :: r, po, ac => f (bidx sh ac) ++ walk r po ac
+
+/-- is some entry selecting this element masked or out of range? -/
+def flag : List SAtom → Index → Bool
+  | [], _ => false
+  | axis _ fl :: r, ac => fl || flag r ac
+  | new :: r, ac => flag r ac
+  | fix _ k :: r, ac => k.isNone || flag r ac
+  | arr sh _ fl :: r, ac => fl (bidx sh ac) || flag r ac
+
+/-- the recorded defect KF-C09-1 does not apply: no integer entry sits on an axis of length 0 -/
+def ok : SAtom → Bool
+  | fix n none => decide (0 < n)
+  | _ => true
+end SAtom
+
+/-- the specification's result: shape; per result coordinate the source coordinate and whether a
+    selecting entry is masked / out of range -/
+structure Spec where
+  shape : Shape
+  src : Index → Index
+  flag : Index → Bool
+
+def ellCountE (es : List Entry) : Nat := (es.filter Entry.isEll).length
+
+/-- resolve a whole index: at most one Ellipsis, not more entries than axes, an index without
+    Ellipsis is followed by an implicit one -/
+def selAtoms (shape : Shape) (es : List Entry) : Option (List SAtom) :=
+  if ellCountE es > 1 then none
+  else if totalAdvance es > shape.length then none
+  else specAtoms (shape.length - totalAdvance es) shape (if es.any Entry.isEll then es else es ++ [.ell])
+
+def specOf (sats : List SAtom) : Option Spec :=
+  (bcastAll (SAtom.arrShapes sats)).map fun B =>
+    let loc := SAtom.axesBefore sats
+    let pl := SAtom.lens sats
+    ⟨pl.take loc ++ B ++ pl.drop loc,
+     fun o => SAtom.walk sats (splitAt loc B.length o).1 (splitAt loc B.length o).2,
+     fun o => SAtom.flag sats (splitAt loc B.length o).2⟩
+
+/-- **the specification**: `q[es]` for `q` of leading shape `shape` (Pair/Vector index objects are
+    not covered by `sel`) -/
+def sel (shape : Shape) (es : List Entry) : Option Spec := (selAtoms shape es).bind specOf
+
 end PMV.Index
